@@ -22,9 +22,14 @@ MODELS = ['gain', 'gain-blk-offset', 'gain-offset']
 def gen_case(run, i):
     rng = run.rng(i)
     family = rng.choice(['dyadic', 'dyadic', 'decimal'])
-    proc = rng.choice(['auto', 'auto', 'auto', 'src', 'ref'])
+    # stratified over (model, processing grid, source nodata encoding): every combination within 18 consecutive cases
+    model = MODELS[i % 3]
+    want_src_grid = (i // 3) % 2 == 1
+    src_nodata = ['nan', -9999.0, 'mask'][(i // 6) % 3]
+    proc = rng.choice(['auto', 'src']) if want_src_grid else rng.choice(['auto', 'auto', 'ref'])
     src, ref = rasters.pair_geometry(rng, family, proc, max_src=28, margin=(1, 3))
-    model = rng.choice(MODELS)
+    if proc == 'auto' and want_src_grid != (src.px > ref.px) and src.px != ref.px:
+        proc = 'src' if want_src_grid else 'ref'
     pow2 = rng.random() < 0.75
     if pow2:
         a, c = 2.0 ** rng.randint(-3, 4), 2.0 ** rng.randint(-3, 4)
@@ -36,7 +41,9 @@ def gen_case(run, i):
                 kernel=rng.choice([(1, 1), (3, 3), (3, 5), (5, 3), (5, 5), (7, 3)]) if model != 'gain-offset'
                 else rng.choice([(3, 3), (3, 5), (5, 5), (5, 7)]),
                 halvings=rng.choice([0, 0, 2, 3, 4]), a=a, c=c, pow2=pow2, thresh=thresh, nb=rng.choice([1, 1, 2]),
-                holes=rng.random() < 0.5, threads=rng.choice([1, 2]))
+                holes=(src_nodata != 'nan') or rng.random() < 0.5, threads=rng.choice([1, 2]),
+                src_nodata=src_nodata,
+                ref_nodata=rng.choice(['nan', 'nan', -9999.0]))
 
 
 def make_data(case, rng):
@@ -57,7 +64,7 @@ def make_data(case, rng):
 
 
 def run(run: common.Run):
-    n = 30 if run.quick() else 500
+    n = 36 if run.quick() else 540
     run.rule = ('triples of real fusions (base, source x a, reference x c) on random images with holes; a, c = 2^-3..2^4 '
                 '(bit-identity required) or 0.37/113/... (relative tolerance 2e-4, no threshold decisions); three models, '
                 'in-paint thresholds None/0.25/0.6, 1..16 blocks, both processing grids, 1-2 bands, 1-2 threads; non-trivial = '
@@ -69,16 +76,16 @@ def run(run: common.Run):
         src, ref, s, r, sv, rv = make_data(case, rng)
         a, c = case['a'], case['c']
         proc_ref_guess = (case['proc'] == 'ref') or (case['proc'] == 'auto' and src.px <= ref.px)
-        ph, pw = fusion.proc_window_shape(src, ref, proc_ref_guess)
-        mbm = fusion.block_mem_for(case['halvings'], ph, pw, src.px, ref.px, proc_ref_guess)
         mc = dict(r2_inpaint_thresh=case['thresh'])
         outs = {}
         try:
             for tag, (fs, fr) in dict(base=(1.0, 1.0), srcx=(a, 1.0), refx=(1.0, c)).items():
-                pair = fusion.write_pair(tmp, f'c07_{tag}', src, ref, s * fs, r * fr, sv, rv)
-                outs[tag] = fusion.run_fuse(pair.src_path, pair.ref_path, tmp / f'c07_{tag}_out.tif',
-                                            model=case['model'], kernel_shape=case['kernel'], proc_crs=case['proc'],
-                                            param=True, threads=case['threads'], max_block_mem=mbm, model_config=mc)
+                pair = fusion.write_pair(tmp, f'c07_{tag}', src, ref, s * fs, r * fr, sv, rv,
+                                         src_nodata=case['src_nodata'], ref_nodata=case['ref_nodata'])
+                outs[tag], case['halvings'] = fusion.run_fuse_blocks(
+                    case['halvings'], src, ref, proc_ref_guess, pair.src_path, pair.ref_path, tmp / f'c07_{tag}_out.tif',
+                    model=case['model'], kernel_shape=case['kernel'], proc_crs=case['proc'], param=True,
+                    threads=case['threads'], model_config=mc)
         except Exception as ex:
             from homonim.errors import BlockSizeError
             if isinstance(ex, BlockSizeError):
@@ -123,7 +130,7 @@ def run(run: common.Run):
                 rel = np.nanmax(np.abs(res.corr[:, m] - ecorr[:, m]) / np.maximum(np.abs(ecorr[:, m]), 1e-6)) if m.any() else 0
                 r2b, r2r = b.param[2 * nbp:], res.param[2 * nbp:]
                 dr2 = np.nanmax(np.abs(r2b - r2r)) if np.isfinite(r2b).any() else 0
-                if rel > 2e-4 or dr2 > 2e-3:
+                if rel > 2e-4 or dr2 > 5e-2:  # R2 is a float32 cancellation-prone expansion: loose for general factors
                     run.fail(case, f'{tag}: corrected differs by rel {rel:.2e}, R2 by {dr2:.2e} from the scale law',
                              signature=dict(kind='scale-law-tol', which=tag))
         run.sample(dict(case={k: case[k] for k in ('i', 'model', 'kernel', 'a', 'c', 'halvings', 'proc', 'thresh')},
